@@ -319,15 +319,26 @@ def run_check(mod, tier: str) -> int:
             det_report["same_process_rerun"] += 1
         gc.enable()
         fresh = sorted(digests)[: (4 if tier == "quick" else 24)]
-        hashseeds = (1,) if tier == "quick" else (1, 31337)
+        pinned = int(os.environ.get("PYTHONHASHSEED", "0") or 0)
+        hashseeds = (pinned, 1) if tier == "quick" else (pinned, 1, 31337)
         if getattr(mod, "HASHSEED_SENSITIVE", False):
-            hashseeds = (int(os.environ.get("PYTHONHASHSEED", "0") or 0),)
+            hashseeds = (pinned,)
+        have_new = any(s_ not in known_sigs for s_ in viols)
         for hs in hashseeds:
             got = _fresh_interpreter_digests(mod, tier, seed, fresh, hs)
-            for i in fresh:
-                if got.get(i) != digests[i]:
-                    print(f"NONDETERMINISM property={mod.ID} run_index={i}: PYTHONHASHSEED={hs} digest {got.get(i)} != {digests[i]}")
-                    return EXIT_HARNESS
+            bad = [i for i in fresh if got.get(i) != digests[i]]
+            if bad and hs != pinned and have_new:
+                # Replays run under the pinned hash seed, which just reproduced exactly.  With violations on the table a
+                # difference under ANOTHER hash seed usually means the code under test walks a set/dict of strings on
+                # the failing path; the violations are reported, the sensitivity is noted.
+                print(f"NOTE property={mod.ID} run_index={bad[0]} behaves differently under PYTHONHASHSEED={hs} "
+                      f"(digest {got.get(bad[0])} != {digests[bad[0]]}); replays are exact under the pinned PYTHONHASHSEED={pinned}")
+                det_report["fresh_interpreter"][str(hs)] = f"differs at {bad[:3]} (violations present)"
+                continue
+            if bad:
+                i = bad[0]
+                print(f"NONDETERMINISM property={mod.ID} run_index={i}: PYTHONHASHSEED={hs} digest {got.get(i)} != {digests[i]}")
+                return EXIT_HARNESS
             det_report["fresh_interpreter"][str(hs)] = len(fresh)
     except HarnessError as e:
         print(f"HARNESS-ERROR property={mod.ID} {e}")
